@@ -249,7 +249,21 @@ fn record(p: &rpm::Package, fresh: Option<usize>, gpg: bool) -> String {
 /// one step on the real package; Err = the library refused
 fn apply(p: &mut rpm::Package, op: &str) -> Result<Option<usize>, ()> {
     match op {
-        "c" => p.clear_signatures().map(|_| None).map_err(|_| ()),
+        "c" => {
+            p.clear_signatures().map_err(|_| ())?;
+            // the same header through the public `SignatureHeaderBuilder`: a (junk) signature added and removed again with
+            // `clear_signatures()` must leave exactly the unsigned header `Package::clear_signatures` installs
+            use sha2::Digest;
+            let digest = hex::encode(sha2::Sha256::digest(header_bytes(p)));
+            let alt = rpm::SignatureHeaderBuilder::new()
+                .set_sha256_digest(&digest)
+                .add_openpgp_signature(vec![0xff, 0x00, 0x01, 0x02, 0x03])
+                .clear_signatures()
+                .build()
+                .map_err(|_| ())?;
+            if alt != p.metadata.signature { return Err(()); }
+            Ok(None)
+        }
         "w" => {
             let mut bytes = Vec::new();
             p.write(&mut bytes).map_err(|_| ())?;
@@ -270,7 +284,9 @@ fn apply(p: &mut rpm::Package, op: &str) -> Result<Option<usize>, ()> {
             let future = op.starts_with('S');
             let idx = LETTERS.iter().position(|l| op.len() == 2 && (op.starts_with('s') || future) && op.ends_with(*l)).ok_or(())?;
             // `S<key>`: a creation time far in the future of every clock involved
-            p.sign_with_timestamp(MemoSigner { idx }, if future { 4_000_000_000u32 } else { T }).map_err(|_| ())?;
+            // the signer is passed by reference (`impl Signing for &T`); the refused signing above passes one by value
+            let signer = MemoSigner { idx };
+            p.sign_with_timestamp(&signer, if future { 4_000_000_000u32 } else { T }).map_err(|_| ())?;
             Ok(Some(idx))
         }
     }
